@@ -63,7 +63,7 @@ func c13ClientGenesis() {
 	chain := "chain-a"
 	native := "teleport"
 	k.SetChainName(src, native)
-	relayer := rt.Str("relayer.address")
+	relayer := sdk.AccAddress(rt.BytesN("relayer.address", 20)).String() // a real bech32 account address (also when the witness is replayed natively)
 	counterparty := rt.Str("relayer.counterparty")
 	c13AssumeRegistrable(relayer, []string{chain}, []string{counterparty})
 	k.RegisterRelayers(src, relayer, []string{chain}, []string{counterparty})
